@@ -138,6 +138,10 @@ DOCUTILS_STRINGS = [
     ("url_schemes", "http,ftp", ["http", "ftp"]), ("url_schemes", "{http: null, gh: 'https://x/{{path}}'}", {"http": None, "gh": "https://x/{{path}}"}),
     ("html_meta", "{a: b}", {"a": "b"}), ("substitutions", "{k: v}", {"k": "v"}), ("disable_syntax", "emphasis,link", ["emphasis", "link"]),
 ("number_code_blocks", "python", ["python"]),
+    # the same lists written with a space after the comma (the usual docutils spelling)
+    ("url_schemes", "http, ftp", ["http", "ftp"]), ("enable_extensions", "dollarmath, amsmath", {"dollarmath", "amsmath"}),
+    ("fence_as_directive", "a, b", {"a", "b"}), ("disable_syntax", "emphasis, link", ["emphasis", "link"]),
+    ("number_code_blocks", "python, c", ["python", "c"]),
 ]
 
 
